@@ -9,7 +9,7 @@ import random, struct, hashlib, logging
 import anyio
 logging.disable(logging.CRITICAL)
 
-from sim import Sim, lossy_fate
+from sim import Sim, lossy_fate, ticks, quant
 from nintendo.nex import prudp, settings as nexsettings, kerberos, common
 
 SERVER = ("10.0.0.1", 60000)
@@ -104,7 +104,7 @@ class Session:
     pass
 
 
-def run_session(cfg, seed, script, fate_factory, phases_gap=None, yield_on_send=False, max_time=600.0):
+def run_session(cfg, seed, script, fate_factory, phases_gap=None, yield_on_send=False, max_time=600.0, end_order="client-first"):
     """script: list of phases; phase = list of (side 'c'|'s', substream, message bytes | ('u', bytes) for unreliable).
     fate_factory(sim, rng) -> fate function. Returns a Session with the trace."""
     rng = random.Random(seed)
@@ -132,9 +132,12 @@ def run_session(cfg, seed, script, fate_factory, phases_gap=None, yield_on_send=
         async def reader(side, client, sub):
             try:
                 while True:
-                    got[(side, sub)].append(await client.recv(sub))
+                    d = await client.recv(sub)
+                    got[(side, sub)].append(d)
+                    sim.net.log.append(("deliver", sim.now(), side, sub, d))
             except anyio.EndOfStream:
                 ends[(side, sub)] = sim.now()
+                sim.net.log.append(("eof", sim.now(), side, sub))
             except Exception as e:
                 errors.append(("reader", side, sub, repr(e)))
 
@@ -165,8 +168,10 @@ def run_session(cfg, seed, script, fate_factory, phases_gap=None, yield_on_send=
             for sub, msg in items:
                 try:
                     if isinstance(msg, tuple):
+                        sim.net.log.append(("app", sim.now(), side, "sendu", 0, msg[1]))
                         await client.send_unreliable(msg[1])
                     else:
+                        sim.net.log.append(("app", sim.now(), side, "send", sub, msg))
                         await client.send(msg, sub)
                     out.accepted.append((side, sub, msg))
                 except Exception as e:
@@ -175,6 +180,7 @@ def run_session(cfg, seed, script, fate_factory, phases_gap=None, yield_on_send=
 
         async def handler(client):
             ep["s"] = client
+            out.rnd["s"] = (client.sequence_mgr.initial_unreliable_id, client.connection_check, client.local_session_id)
             if cfg.start:
                 client.sequence_mgr.counters[0].next_id = cfg.start[1]
                 client.sliding_windows[0].next = cfg.start[0]
@@ -185,15 +191,22 @@ def run_session(cfg, seed, script, fate_factory, phases_gap=None, yield_on_send=
                 srv_ready.set()
                 await srv_done.wait()
                 tg.cancel_scope.cancel()
+            sim.net.log.append(("app", sim.now(), "s", "done", 0, b""))
 
         out.accepted, out.send_errors = [], []
         out.connect_error = None
+        out.rnd = {}
+        out.creds = creds
+        out.epoch = sim.epoch
 
         async def main():
             async with prudp.serve(handler, s, SERVER[0], SERVER[1], key=b"server key" if cfg.credentials else None):
                 try:
+                    sim.net.log.append(("app", sim.now(), "c", "connect", 0, b""))
                     async with prudp.connect(s, SERVER[0], SERVER[1], credentials=creds) as client:
                         ep["c"] = client
+                        out.rnd["c"] = (client.sequence_mgr.initial_unreliable_id, client.connection_check, client.local_session_id)
+                        sim.net.log.append(("app", sim.now(), "c", "connected", 0, b""))
                         client.transport.socket.yield_on_send = yield_on_send
                         with anyio.move_on_after(30):
                             await srv_ready.wait()
@@ -215,11 +228,17 @@ def run_session(cfg, seed, script, fate_factory, phases_gap=None, yield_on_send=
                                 async with anyio.create_task_group() as ph:
                                     ph.start_soon(side_script, "c", client, [(sub, m) for sd, sub, m in phase if sd == "c"])
                                     ph.start_soon(side_script, "s", ep["s"], [(sub, m) for sd, sub, m in phase if sd == "s"])
-                                await anyio.sleep((phases_gap or (cfg.resend_timeout * (cfg.resend_limit + 2))) + rng.random() * 1e-3)
+                                await anyio.sleep(quant((phases_gap or (cfg.resend_timeout * (cfg.resend_limit + 2))) + rng.random() * 1e-3))
                                 snapshot("phase%d" % i)
                             out.final_state = (client.state, ep["s"].state)
                             tg.cancel_scope.cancel()
-                        srv_done.set()
+                        if end_order == "server-first":
+                            srv_done.set()
+                            await anyio.sleep(quant(cfg.resend_timeout * (cfg.resend_limit + 2)))
+                        sim.net.log.append(("app", sim.now(), "c", "disconnect", 0, b""))
+                    sim.net.log.append(("app", sim.now(), "c", "closed", 0, b""))
+                    srv_done.set()
+                    await anyio.sleep(quant(cfg.resend_timeout * (cfg.resend_limit + 2)))
                 except BaseException as e:
                     if out.connect_error is None and "c" not in ep:
                         out.connect_error = repr(e)
